@@ -279,6 +279,45 @@ Fixpoint wtrace (fixed : bool) (s : wst) (ops : list wop) : list (list Z * bool)
   end.
 
 (* ------------------------------------------------------------------------------------------ *)
+(* FAST Neuron/Nano switch reports (net_neuron.py): `SA:` snapshots (_process_sa -> update_switches_from_hw_data:
+   logical = invert xor raw bit, for every configured switch) and `-L:`/`/L:` (Nano: `-N:`/`/N:`) events
+   (_process_switch_closed/_open -> process_switch_by_num(logical=True): logical state 1 / 0, unknown numbers
+   ignored).  State: configured switch number -> (invert, logical state), as held by the SwitchController.   *)
+
+Inductive fop :=
+| FSnap (bits : list Z)          (* raw bit per switch number, LSB-first per byte, as decoded by _process_sa *)
+| FClosed (n : Z)
+| FOpen (n : Z).
+
+Definition fupd (n : Z) (inv : bool) (st : Z) (op : fop) : Z :=
+  match op with
+  | FSnap bits => Z.lxor (if inv then 1 else 0) (nth (Z.to_nat n) bits 0)
+  | FClosed k => if k =? n then 1 else st
+  | FOpen k => if k =? n then 0 else st
+  end.
+
+Definition fsw := list (Z * (bool * Z)).
+
+Definition fstep (m : fsw) (op : fop) : fsw :=
+  map (fun e => (fst e, (fst (snd e), fupd (fst e) (fst (snd e)) (snd (snd e)) op))) m.
+
+Fixpoint fget (n : Z) (m : fsw) : option (bool * Z) :=
+  match m with [] => None | (k, v) :: t => if n =? k then Some v else fget n t end.
+
+(* what the last report about switch n says, given its state before the reports *)
+Definition last_fast (n : Z) (inv : bool) (ops : list fop) (st0 : Z) : Z :=
+  fold_left (fun st op => fupd n inv st op) ops st0.
+
+Fixpoint ftrace (m : fsw) (ops : list fop) : list (list Z) :=
+  match ops with
+  | [] => []
+  | op :: t => let m' := fstep m op in map (fun e => snd (snd e)) m' :: ftrace m' t
+  end.
+
+Definition fastsw_run (i : fsw * list fop) : list (list Z) := ftrace (fst i) (snd i).
+Definition fastsw_out_eqb (a b : list (list Z)) : bool := zss_eqb a b.
+
+(* ------------------------------------------------------------------------------------------ *)
 (* glue for the correspondence check *)
 
 Definition ev_eqb (a b : Z * Z * Z) : bool :=
